@@ -98,8 +98,10 @@ def make_pool(seed):
     P['s_krylov'] = solver_iter_krylov(rtol=1e-12)
     P['s_pcg'] = solver_iter_pcg(rtol=1e-12)
     P['s_cg'] = solver_iter_cg(tol=1e-13)
+    P['s_loose'] = solver_iter_krylov(rtol=1e-2)          # far from converged: the answer shows what the iteration started from
+    P['lapT'] = fem.BilinearForm(lambda u, v, w: u * v + u.grad[0] * v, nthreads=2)      # a threaded form object
     # two linear systems of different size
-    for nm, mesh in (('sys1', P['mA']), ('sys2', P['mB'])):
+    for nm, mesh in (('sys1', P['mA']), ('sys2', P['mB']), ('sys1c', P['mC'])):
         b = fem.CellBasis(mesh, E.ElementTriP1())
         A = P['lap'].assemble(b)
         f = P['load'].assemble(b)
@@ -136,7 +138,7 @@ def arrays_of_pool(P):
         m = P[k]
         out += [m.p, m.t]
         out += tag_arrays(m)
-    for k in ('sys1', 'sys2'):
+    for k in ('sys1', 'sys2', 'sys1c'):
         A, f = P[k]
         out += [A.data, A.indices, A.indptr, f]
     for k in ('cond1', 'mpc1'):
@@ -175,7 +177,7 @@ def cache_signature(P):
                 h.update(attr.encode() + str(v.shape).encode() + np.ascontiguousarray(v).tobytes())
             elif v is None:
                 h.update((attr + ':None').encode())
-    for k in ('s_direct', 's_krylov', 's_pcg', 's_cg'):
+    for k in ('s_direct', 's_krylov', 's_pcg', 's_cg', 's_loose'):
         f = P[k]
         for cell in (f.__closure__ or ()):
             try:
@@ -241,12 +243,25 @@ def operations():
         lambda P: _basis_obs(fem.CellBasis(P['mQ'], E.ElementQuad2(), mapping=P['mapQ'])))
     op('FacetBasis(mQ,Quad1,mapping=mapQ)', {'mQ', 'mapQ'})(
         lambda P: _basis_obs(fem.FacetBasis(P['mQ'], E.ElementQuad1(), mapping=P['mapQ'])))
+    # meshes that share their vertex ARRAY but not their connectivity (oriented() / replace(t=...))
+    op('CellBasis(mM,eMor)', {'mM', 'eMor'})(lambda P: _basis_obs(fem.CellBasis(P['mM'], P['eMor'])))
+    op('CellBasis(mM.oriented(),eMor)', {'mM', 'eMor'})(lambda P: _basis_obs(fem.CellBasis(P['mM'].oriented(), P['eMor'])))
+    op('CellBasis(replace(mB,t=reversed),eMor)', {'mB', 'eMor'})(
+        lambda P: _basis_obs(fem.CellBasis(__import__('dataclasses').replace(P['mB'], t=P['mB'].t[:, ::-1].copy()), P['eMor'])))
     # equal-size quadratures at different points
     X1 = np.array([[.125, .5, .875]])
     X2 = np.array([[.25, .375, .75]])
     W = np.array([.25, .5, .25])
     op('CellBasis(mL,eLpp,quadX1)', {'mL', 'eLpp'})(lambda P: _basis_obs(fem.CellBasis(P['mL'], P['eLpp'], quadrature=(X1, W))))
     op('CellBasis(mL,eLpp,quadX2)', {'mL', 'eLpp'})(lambda P: _basis_obs(fem.CellBasis(P['mL'], P['eLpp'], quadrature=(X2, W))))
+    # ... and at points that differ by less than 1e-8 (a tolerance-based staleness test would call them equal)
+    X1e = X1 + 2.0 ** -27
+    op('CellBasis(mL,eLpp,quadX1+2^-27)', {'mL', 'eLpp'})(lambda P: _basis_obs(fem.CellBasis(P['mL'], P['eLpp'], quadrature=(X1e, W))))
+    Xq1 = np.array([[.25, .5, .75], [.125, .5, .625]])
+    Wq = np.array([.25, .5, .25])
+    op('CellBasis(mQ,eQP,quadXq1)', {'mQ', 'eQP'})(lambda P: _basis_obs(fem.CellBasis(P['mQ'], P['eQP'], quadrature=(Xq1, Wq))))
+    op('CellBasis(mQ,eQP,quadXq1+2^-27)', {'mQ', 'eQP'})(
+        lambda P: _basis_obs(fem.CellBasis(P['mQ'], P['eQP'], quadrature=(Xq1 + 2.0 ** -27, Wq))))
     # ---- probes / interpolator at two point sets of equal size --------------------------------------------------
     x1 = np.array([[.0625, .5, 1.75]])
     x2 = np.array([[.125, .75, 2.25]])
@@ -359,6 +374,18 @@ def operations():
     for sk in ('s_direct', 's_krylov', 's_pcg', 's_cg'):
         for sysk in ('sys1', 'sys2'):
             op(f'solve({sysk},{sk})', {sysk, sk})(lambda P, sk=sk, sysk=sysk: [solve(*P[sysk], solver=P[sk])])
+    # solve-time options (start vector, preconditioner) belong to that one call
+    from skfem.utils import build_pc_ilu
+    for sk in ('s_krylov', 's_pcg', 's_loose'):
+        op(f'solve(sys1,{sk},x0=ones,M=ilu)', {'sys1', sk})(
+            lambda P, sk=sk: [solve(*P['sys1'], solver=P[sk], x0=np.ones(P['sys1'][0].shape[0]), M=build_pc_ilu(P['sys1'][0]))])
+        op(f'solve(sys1c,{sk})', {'sys1c', sk})(lambda P, sk=sk: [solve(*P['sys1c'], solver=P[sk])])
+    op('solve(sys2,s_loose)', {'sys2', 's_loose'})(lambda P: [solve(*P['sys2'], solver=P['s_loose'])])
+    # one threaded form object for two local shapes with the same number of index pairs
+    op('lapT.assemble(P2->P1)', {'mA', 'lapT'})(
+        lambda P: [P['lapT'].assemble(fem.CellBasis(P['mA'], E.ElementTriP2()), fem.CellBasis(P['mA'], E.ElementTriP1(), intorder=4)).toarray()])
+    op('lapT.assemble(P1->P2)', {'mA', 'lapT'})(
+        lambda P: [P['lapT'].assemble(fem.CellBasis(P['mA'], E.ElementTriP1(), intorder=4), fem.CellBasis(P['mA'], E.ElementTriP2())).toarray()])
     # systems returned by condense / mpc are values too: solving them again gives the same answer
     op('solve(cond1)', {'cond1'})(lambda P: [solve(*P['cond1'])])
     op('solve(cond1,s_krylov)', {'cond1', 's_krylov'})(lambda P: [solve(*P['cond1'], solver=P['s_krylov'])])
